@@ -27,20 +27,30 @@ inductive Outcome where
   | unconvertible               -- convert_snapshot fails (it catches Exception and returns None): nothing to send
   | sendFails (e : Py.Exn)      -- converted; `stub.send` raises
   | dies (e : Py.Exn)           -- fails before sending with something convert_snapshot does not catch
+  | stubFails (e : Py.Exn)      -- converted; building `SnapshotServiceStub(channel)` raises
+  | metaFails (e : Py.Exn)      -- converted, stub built; `self.grpc.metadata()` raises before `send` is entered
 deriving DecidableEq, Repr
 
 /-- the behaviour of `convert_snapshot` and `stub.send` an outcome stands for (inputs of the translated `_push_task`) -/
-def Outcome.inputs : Outcome → ConvOut × Option Py.Exn
-  | .ok => (.converted, none)
-  | .unconvertible => (.isNone, none)
-  | .sendFails e => (.converted, some e)
-  | .dies e => (.raises e, none)
+structure PushIn where
+  conv : ConvOut
+  stub : Option Py.Exn
+  md : Option Py.Exn
+  send : Option Py.Exn
+
+def Outcome.inputs : Outcome → PushIn
+  | .ok => ⟨.converted, none, none, none⟩
+  | .unconvertible => ⟨.isNone, none, none, none⟩
+  | .sendFails e => ⟨.converted, none, none, some e⟩
+  | .dies e => ⟨.raises e, none, none, none⟩
+  | .stubFails e => ⟨.converted, some e, none, none⟩
+  | .metaFails e => ⟨.converted, none, some e, none⟩
 
 /-- the exception that leaves one execution of `_push_task` (`Extracted.Tasks.pushTask`, regenerated) -/
-def Outcome.error (o : Outcome) : Option Py.Exn := (pushTask o.inputs.1 o.inputs.2).2
+def Outcome.error (o : Outcome) : Option Py.Exn := (pushTask o.inputs.conv o.inputs.stub o.inputs.md o.inputs.send).2
 
 /-- send attempts made by one execution of `_push_task` (`Extracted.Tasks.pushTask`, regenerated) -/
-def Outcome.sends (o : Outcome) : Nat := (pushTask o.inputs.1 o.inputs.2).1
+def Outcome.sends (o : Outcome) : Nat := (pushTask o.inputs.conv o.inputs.stub o.inputs.md o.inputs.send).1
 
 inductive Fut where
   | queued
@@ -252,13 +262,19 @@ inductive Refusal where
   | silent                  -- swallowed without a trace: the work is dropped silently
 deriving DecidableEq, Repr
 
-/-- a submitter (`Extracted.Tasks.SubmitSite`) meets a task handler in state `th`: `submit_task` refuses
-    (`submitTask th = .error e`) and the site lets that through, or swallows it (with or without a log record);
-    `none` = the work was accepted -/
-def siteOutcome (site : SubmitSite) (th : TH) : Option Refusal :=
-  match submitTask th with
-  | .ok _ => none
-  | .error e => some (if site.swallowsRefusal then (if site.handlerLogs then .logged else .silent) else .raised e)
+/-- a submitter (`Extracted.Tasks.SubmitSite`) meets its task handler — `none`: no handler was ever set (the field is
+    still None), `some th`: a handler in state `th`.  With a handler, `submit_task` accepts (result `none`) or refuses
+    (`submitTask th = .error e`) and the site lets that through, or swallows it (with or without a log record).
+    Without one, a site guarded by `if <handler> is not None:` does nothing at all — the work is dropped silently —
+    and an unguarded site raises AttributeError.  (The executor's own refusals of an OPEN handler are the steps
+    `pushRejected` / `pushQueuedRaised`, not part of this function.) -/
+def siteOutcome (site : SubmitSite) (h : Option TH) : Option Refusal :=
+  match h with
+  | none => some (if site.noneGuard then .silent else .raised .exc)
+  | some th =>
+    match submitTask th with
+    | .ok _ => none
+    | .error e => some (if site.swallowsRefusal then (if site.handlerLogs then .logged else .silent) else .raised e)
 
 def runFrom (f : Int → Outcome) (s : St) (sched : List Step) : St := sched.foldl (step f) s
 def run (f : Int → Outcome) (sched : List Step) : St := runFrom f St.init sched
